@@ -1,6 +1,6 @@
 #!/bin/bash
-# usage: ingest.sh <worktree-prefix e.g. /tmp/seed3-> <property> <first new index>
-pre="$1"; id="$2"; base="$3"
+# usage: ingest.sh <worktree-prefix e.g. /tmp/seed3-> <property> <first new index> [first-contact log]
+pre="$1"; id="$2"; base="$3"; fclog="${4:-/dev/null}"
 cd /verif
 for k in 1 2 3; do
   r=$(tools/confirm_seed.sh ${pre}${id}/out/m$k 2>&1 | grep -E "^CONFIRMED|^NOT-CONFIRMED" | tr '\n' ' ')
@@ -9,4 +9,4 @@ for k in 1 2 3; do
   if [ "$r" = "CONFIRMED " ]; then python3 tools/store_seed.py ${pre}${id}/out/m$k $id-$((base+k-1)) >/dev/null; fi
 done
 git -C /repo worktree remove --force ${pre}${id}; rm -rf ${pre}${id}; git -C /repo worktree prune
-for k in 0 1 2; do [ -d seeded/$id-$((base+k)) ] && tools/run_seeds.sh $id-$((base+k)) | cut -c1-220; done
+for k in 0 1 2; do [ -d seeded/$id-$((base+k)) ] && tools/run_seeds.sh $id-$((base+k)) | cut -c1-220 | tee -a "$fclog"; done
